@@ -21,6 +21,7 @@ func init() {
 func runC27(w *World, r *Report) {
 	defer c27WholePassphrase(w, r)
 
+	r.Rule("R-C27-5", "what a decrypt tree hands to its text decoder (base64 / hex DecodeString) is the caller's ciphertext itself, the ciphertext with a constant-length head sliced off, or strings.TrimPrefix / CutPrefix of it: no other text function stands between the input and the decoder, so exactly one text decodes to the authenticated bytes", 2)
 	r.Rule("R-C27-1", "every nil-error return in a decrypt call tree returns text derived from AEAD.Open's plaintext (or a tree function's result) and is unreachable once that call's nil-error edge is removed", 6)
 	r.Rule("R-C27-2", "every decrypt call tree contains a call of cipher.AEAD.Open reachable from its entry point", 2)
 	r.Rule("R-C27-3", "key provenance: the key given to aes.NewCipher in a decrypt tree is, on every path (all phi edges, all stored values, all call sites), computed from the caller's passphrase parameter; a key from any other source (a cache, a constant) lets a different passphrase decrypt", 2)
@@ -60,6 +61,8 @@ func runC27(w *World, r *Report) {
 		}
 
 		visit(entry)
+
+		c27DecoderInput(w, r, rel, order)
 
 		hasOpen := false
 
@@ -394,5 +397,71 @@ func c27WholePassphrase(w *World, r *Report) {
 
 	if n == 0 {
 		r.Anchor("R-C27-4", "key-derivation calls in package util")
+	}
+}
+
+// c27DecoderInput: R-C27-5.
+func c27DecoderInput(w *World, r *Report, rel string, tree []*ssa.Function) {
+	for _, fn := range tree {
+		n := 0
+
+		allInstrs(fn, func(in ssa.Instruction) {
+			c, ok := in.(*ssa.Call)
+			if !ok {
+				return
+			}
+
+			id := callID(c.Common())
+			if id != "encoding/base64.Encoding.DecodeString" && id != "encoding/hex.DecodeString" {
+				return
+			}
+
+			arg := c.Call.Args[len(c.Call.Args)-1]
+
+			n++
+
+			key := fnKey(fn) + "|decoder input"
+			if n > 1 {
+				key += " #" + sprintInt(n)
+			}
+
+			isParam := func(v ssa.Value) bool {
+				_, ok := v.(*ssa.Parameter)
+
+				return ok
+			}
+
+			verdict := ""
+
+			switch x := arg.(type) {
+			case *ssa.Parameter:
+				verdict = "the ciphertext parameter itself"
+			case *ssa.Slice:
+				if isParam(x.X) && x.High == nil {
+					if _, isC := constInt(x.Low); isC || x.Low == nil {
+						verdict = "the ciphertext with a constant-length marker sliced off"
+					}
+				}
+			case *ssa.Call:
+				cid := callID(x.Common())
+				if (cid == "strings.TrimPrefix" || cid == "strings.CutPrefix") && len(x.Call.Args) == 2 && isParam(x.Call.Args[0]) {
+					verdict = "strings.TrimPrefix of the ciphertext"
+				}
+			case *ssa.Extract:
+				if xc, ok := x.Tuple.(*ssa.Call); ok && callID(xc.Common()) == "strings.CutPrefix" && x.Index == 0 && isParam(xc.Call.Args[0]) {
+					verdict = "strings.CutPrefix of the ciphertext"
+				}
+			}
+
+			if verdict == "" && !derivesFrom(arg, isParam, func(string) bool { return true }) {
+				verdict = "not computed from a parameter (an internal constant or intermediate)"
+			}
+
+			if verdict != "" {
+				r.Discharge("R-C27-5", key, w.pos(c.Pos()), verdict)
+			} else {
+				r.Violate("R-C27-5", key, w.pos(c.Pos()), "the text handed to the decoder is computed from the ciphertext by something other than slicing off a constant-length marker ("+valueName(arg)+"): texts other than the genuine ciphertext decode to the same authenticated bytes and are accepted, or genuine ciphertexts stop decoding")
+			}
+		})
 	}
 }
